@@ -361,7 +361,7 @@ _FRAME = re.compile(r"#\d+ 0x[0-9a-f]+ in (.+?) (?:/|\()")
 def crash_key(stderr, status):
     """Normalised key of an abnormal end: kind + first chaiscript frames (templates/addresses stripped)."""
     kind = "signal"
-    m = re.search(r"ERROR: AddressSanitizer: ([a-zA-Z\-]+)", stderr)
+    m = re.search(r"ERROR: AddressSanitizer: ([a-zA-Z\-]+)", stderr) or re.search(r"SUMMARY: AddressSanitizer: ([a-zA-Z\-]+)", stderr)
     if m:
         kind = "asan:" + m.group(1)
     elif "runtime error:" in stderr:
